@@ -546,9 +546,11 @@ def layout_frame_header(facts, orc):
         return [t.rr]
     seq = _seq(ev, scratch[0])
     kinds = [s[0] for s in seq]
-    t.row(kinds == ["w", "w", "comp", "w", "case", "extra", "extra"], w.id, "order",
-          "header scratch sequence is %s" % kinds, {"sequence": kinds}, w.loc())
-    if kinds != ["w", "w", "comp", "w", "case", "extra", "extra"]:
+    # the coded number is written by one call per blocking strategy (a `case` event) or by one call on a value selected by
+    # the strategy (a `bytes` event whose source is a case expression)
+    okk = kinds in (["w", "w", "comp", "w", "case", "extra", "extra"], ["w", "w", "comp", "w", "bytes", "extra", "extra"])
+    t.row(okk, w.id, "order", "header scratch sequence is %s" % kinds, {"sequence": kinds}, w.loc())
+    if not okk:
         return [t.rr]
     sync, codes, chan, size, num, xb, xr = seq
     fs = orc["frame_sync"]
@@ -569,18 +571,32 @@ def layout_frame_header(facts, orc):
           "sample-size field is %s in %s bits; expected into_tag() << 1 in 4 bits (reserved bit 0)" % (E.show(size[2]), size[1]),
           {"nibble": E.show(size[2])}, size[4])
     # coded number: the fixed-blocking arm encodes the frame number, the variable arm the start sample
-    arms = dict(num[2])
     okn = True
+    if num[0] == "case":
+        arms = dict(num[2])
+        scrut = E.canon(num[1])
+        per_label = {}
+        for lab in (0, 1):
+            a = arms.get(lab)
+            if not a or [x[0] for x in a] != ["bytes"]:
+                okn = False
+                continue
+            per_label[lab] = E.canon(E.strip_casts(a[0][2]))
+    else:
+        from .c11 import _leaves
+        per_label = {}
+        scrut = None
+        for conds, leaf in _leaves(E.strip_casts(num[2])):
+            if len(conds) != 1 or len(conds[0][1]) != 1:
+                okn = False
+                continue
+            scrut = E.canon(conds[0][0])
+            per_label[conds[0][1][0]] = E.canon(leaf)
     for lab, want in ((0, "arg1.frame_number"), (1, "arg1.start_sample_number")):
-        a = arms.get(lab)
-        if not a or [x[0] for x in a] != ["bytes"]:
+        cs = per_label.get(lab)
+        if not (cs and cs.startswith("ok(component::bitrepr::encode_to_utf8like(") and want in cs):
             okn = False
-            continue
-        src = E.strip_casts(a[0][2])
-        cs = E.canon(src)
-        if not (cs.startswith("ok(component::bitrepr::encode_to_utf8like(") and want in cs):
-            okn = False
-    t.row(okn and E.canon(num[1]) == "arg1.variable_block_size", w.id, "coded-number",
+    t.row(okn and scrut == "arg1.variable_block_size", w.id, "coded-number",
           "coded-number arms do not encode frame_number (fixed blocking) / start_sample_number (variable blocking)")
     t.row(xb[1] == DT + "BlockSizeSpec" and E.canon(xb[2]) == "arg1.block_size_spec" and xr[1] == DT + "SampleRateSpec"
           and E.canon(xr[2]) == "arg1.sample_rate_spec", w.id, "extra-fields",
@@ -600,6 +616,9 @@ def layout_frame_header(facts, orc):
             between = [e for e in ev[marks[0]:marks[1]] if e[0] in ("w", "wba", "comp", "extra", "align", "reset")
                        and E.canon(e[1]) == scratch[0]]
             okd = not between
+        elif okd and len(marks) == 1:
+            # one observation of the scratch bytes used for both the forward and the checksum
+            okd = fwd[1] == E.strip_casts(crc[2][1])[1]
         elif okd:
             okd = False
     t.row(okd, w.id, "crc8", "the header is not forwarded as scratch bytes followed by HEADER_CRC.checksum(scratch bytes) "
@@ -940,5 +959,9 @@ def run(facts, tier, ctx):
         except E.Undecided as e:
             rr = RuleResult("UNDECIDED/" + fn.__name__, "the effect engine could not structure a body")
             rr.fail(Finding(rr.rule, fn.__name__, "undecided", 0, "", "fail closed: %s" % e))
+            out.append(rr)
+        except E.FindingSignal as e:
+            rr = RuleResult("LAYOUT/" + fn.__name__, "the effect engine found an inconsistency while structuring a body")
+            rr.fail(Finding(rr.rule, fn.__name__, getattr(e, "kind", "inconsistent"), 0, "", str(e)))
             out.append(rr)
     return out
